@@ -21,20 +21,23 @@
 (***************************************************************************)
 EXTENDS CoalescerProps, Integers, FiniteSets, TLC
 
-CONSTANTS Window,       \* coalescing window in ticks (>= 1)
+CONSTANTS Windows,      \* coalescing windows in ticks to explore (chosen in Init); 0 = NewCoalescer(0) or a
+                        \* negative duration (treated as zero): the timer is due the moment it is re-armed
           MaxStrobes,   \* strobe budget
           MaxTicks,     \* time budget
           Cap,          \* capacity of the signals channel (1 in the code)
           WithConsumer, WithTerminate
 
 VARIABLE s
-(* timer, buffered, ctxCancelled, loopDone,
+(* window, timer, buffered, ctxCancelled, loopDone,
    strobers (callers blocked in Strobe()), nstrobes, ticks, tpc,
    monitors: owed, quiet (capped at Window + 1), fired, got, bad *)
 
-Init == s = [timer |-> -1, buffered |-> 0, ctxCancelled |-> FALSE, loopDone |-> FALSE,
+Init == \E w \in Windows :
+        s = [window |-> w, timer |-> -1, buffered |-> 0, ctxCancelled |-> FALSE, loopDone |-> FALSE,
              strobers |-> 0, nstrobes |-> 0, ticks |-> 0, tpc |-> "idle",
              owed |-> FALSE, quiet |-> 0, fired |-> 0, got |-> FALSE, bad |-> {}]
+Window == s.window
 
 Violated(name, ok) == IF ok THEN {} ELSE {name}
 Min(a, b) == IF a < b THEN a ELSE b
